@@ -176,7 +176,7 @@ def run(rep: Report, prog: Program, tier: str) -> None:
     need("packets_lost", -(1 << 23), (1 << 23) - 1, "24-bit signed, by clamp_packets_lost")
     need("highest_sequence", 0, U32, "32-bit, masked")
     need("jitter", None, U32, "32-bit, saturated")
-    need("dlsr", 0, None, "non-negative")
+    need("dlsr", 0, None, "non-negative (upper bound: C18-DLSR)")
     # lsr values are stored into self.__lsr by _handle_rtcp_packet: check the stored expression
     hrp = prog.func("rtcrtpreceiver.RTCRtpReceiver._handle_rtcp_packet")
     st_lsr = [n for n in walk_no_nested(hrp.node) if isinstance(n, ast.Assign) and unparse(n.targets[0]).startswith("self.__lsr[")]
@@ -206,3 +206,32 @@ def run(rep: Report, prog: Program, tier: str) -> None:
         rep.ok("C18-LSR", "same shift and mask constants on both sides", sample="16 / 0xFFFFFFFF")
     else:
         rep.fail(mk_finding(prog, PROP, "C18-LSR", snd, snd.node, f"LSR extraction differs between sender and receiver: {shapes}", construct="lsr shape"))
+
+    # ---- C18-DLSR: the delay-since-last-SR computation, evaluated on a grid of delays
+    rep.rule("C18-DLSR", "DLSR is 0 or the delay in 1/65536 s and always fits 32 bits", min_instances=10)
+    assigns = [n for n in walk_no_nested(run_rtcp.node) if isinstance(n, ast.Assign) and unparse(n.targets[0]) == "dlsr" and not isinstance(n.value, ast.Constant)]
+    if len(assigns) != 1:
+        raise AnalysisError("_run_rtcp: computation of dlsr not found")
+    parents = {}
+    for p in ast.walk(run_rtcp.node):
+        for ch in ast.iter_child_nodes(p):
+            parents[id(ch)] = p
+    stmt = assigns[0]
+    while isinstance(parents.get(id(stmt)), ast.If) and any(isinstance(x, ast.Name) and x.id == "delay" for x in ast.walk(parents[id(stmt)].test)):
+        stmt = parents[id(stmt)]
+    from engine.peval import Evaluator as _Ev
+    for delay in (-1e9, -1.0, 0.0, 1e-9, 0.5, 1.0, 2.75, 65535.0, 65535.99998, 65536.0, 65536.5, 70000.0, 2.0e5, 1.0e12):
+        e5 = _Ev(prog, run_rtcp.module, run_rtcp.cls, {"delay": delay, "dlsr": 0})
+        try:
+            e5.exec_stmt(stmt)
+        except Exception as ex:
+            raise AnalysisError(f"cannot evaluate the dlsr computation: {ex}")
+        got = e5.env["dlsr"]
+        in_range = isinstance(got, int) and 0 <= got <= U32
+        exact = got == int(delay * 65536) if 0 < delay < 65536 else True
+        if in_range and exact:
+            rep.ok("C18-DLSR", f"delay {delay!r} s", sample=f"dlsr {got}")
+        else:
+            rep.fail(mk_finding(prog, PROP, "C18-DLSR", run_rtcp, stmt,
+                                f"a last sender report {delay!r} s old gives dlsr = {got!r}" + ("" if in_range else ", which does not fit the 32-bit field: building the receiver report "
+                                "raises struct.error and the RTCP task dies") + ("" if exact else f"; expected {int(delay * 65536)}"), construct="dlsr range"))
